@@ -60,10 +60,24 @@ func newOracle(b *j5sgen.Bundle, pkg string) *oracle {
 		o.decls[p][n] = declInfo{k, f}
 	}
 	for _, f := range b.Files {
-		for _, e := range f.Elements {
+		for _, e := range f.Expanded() {
 			if e.N != nil {
 				name := e.N.Name
 				add(f.Package(), name, e.N.Kind, f.Path()+".proto")
+				// explicitly nested declarations can be referred to by their dotted name
+				// (the events of an entity: <Name>EventType.<Event>)
+				var sub func(prefix string, ns []*j5sgen.Nested)
+				sub = func(prefix string, ns []*j5sgen.Nested) {
+					for _, n := range ns {
+						nm := n.Name
+						if n.Kind == "enum" {
+							nm = n.Enum.Name
+						}
+						add(f.Package(), prefix+"."+nm, n.Kind, f.Path()+".proto")
+						sub(prefix+"."+nm, n.Subs)
+					}
+				}
+				sub(name, e.N.Subs)
 			}
 		}
 	}
@@ -241,6 +255,19 @@ func (o *oracle) checkEnum(at string, name string, e *j5sgen.Enum, de *DEnum) {
 		want = append(want, DVal{n, i + 1})
 	}
 	if fmt.Sprint(de.Vals) != fmt.Sprint(want) {
+		// the recorded finding, and nothing else: the FIRST declared option ends in UNSPECIFIED
+		// under a name of its own (not the zero value spelled out) and the compiler made exactly
+		// it the zero value, the remaining options numbered from 1
+		if len(e.Opts) > 0 && strings.HasSuffix(e.Opts[0], "UNSPECIFIED") && len(opts) == len(e.Opts) {
+			named := make([]DVal, 0, len(opts))
+			for i, v := range want[1:] {
+				named = append(named, DVal{v.Name, i})
+			}
+			if fmt.Sprint(de.Vals) == fmt.Sprint(named) {
+				o.fail("C02 first enum option ending in UNSPECIFIED under a name of its own becomes the zero value: no <PREFIX>UNSPECIFIED, options numbered from 0", "enum options numbered in order after implicit UNSPECIFIED", at+": "+fmt.Sprint(de.Vals), fmt.Sprint(want))
+				return
+			}
+		}
 		o.fail("C02 enum values: not the declared options numbered in order after <PREFIX>UNSPECIFIED=0", "enum options numbered in order after implicit UNSPECIFIED", at+": "+fmt.Sprint(de.Vals), fmt.Sprint(want))
 	}
 }
@@ -441,7 +468,7 @@ func (o *oracle) Check(files []*DFile) []violation {
 				o.fail("C02 file package", "package follows the path", df.Pkg, o.pkg)
 			}
 			var wantM, wantE []string
-			for _, e := range src.Elements {
+			for _, e := range src.Expanded() {
 				switch e.Kind {
 				case "object", "oneof":
 					wantM = append(wantM, e.N.Name)
@@ -453,7 +480,7 @@ func (o *oracle) Check(files []*DFile) []violation {
 				o.fail("C02 top-level messages: not exactly the declared objects and oneofs", "exactly the declared messages", mainPath+": "+fmt.Sprint(msgNames(df.Msgs)), fmt.Sprint(wantM))
 			}
 			mi, ei := 0, 0
-			for _, e := range src.Elements {
+			for _, e := range src.Expanded() {
 				switch e.Kind {
 				case "object", "oneof":
 					if mi < len(df.Msgs) && df.Msgs[mi].Name == e.N.Name {
@@ -477,7 +504,7 @@ func (o *oracle) Check(files []*DFile) []violation {
 			}
 			o.checkDeps(fc, df)
 		}
-		for _, e := range src.Elements {
+		for _, e := range src.Expanded() {
 			if e.Kind == "service" {
 				svcs = append(svcs, e.Service)
 			}
